@@ -138,6 +138,14 @@ Proof. exact history_invariant. Qed.
 Theorem C14_invariant_preserved : forall s o, Inv s -> Inv (fst (step s o)).
 Proof. exact step_inv. Qed.
 
+(* from a state satisfying the invariant the miner itself never raises ERR_BALANCE_INVARIANTS_BROKEN
+   (1000): the final check_balance_invariants of every handler always passes; a 1000 can only be
+   the exit code handed back by the nested power-actor call *)
+Theorem C14_balance_check_never_fails : forall s o,
+  Inv s -> code (snd (step s o)) = BALANCE_INVARIANTS_BROKEN ->
+  In BALANCE_INVARIANTS_BROKEN (nested_codes o).
+Proof. exact balance_check_never_fails. Qed.
+
 Theorem C14_rejected_call_changes_nothing : forall s o s' out,
   step s o = (s', out) -> code out <> 0 -> s' = s /\ out = fail (code out).
 Proof. exact step_rejected_unchanged. Qed.
